@@ -216,6 +216,8 @@ var semCases = []semCase{
 	{"flatten-scalar", "package foo.v1\n\nobject Foo {\n  field a string {\n    flatten = true\n  }\n}\n"},
 	{"nested-ref-dotted", "package foo.v1\n\nobject Foo {\n  field a object:Foo.Inner\n  object Inner {\n  }\n}\n"},
 	{"description-not-first", "package foo.v1\n\nobject Foo {\n  field a string\n  | late description\n}\n"},
+	{"name-with-dot", "package foo.v1\n\nservice Part {\n  method Do.x {\n    httpMethod = \"PUT\"\n    httpPath = \"/x\"\n    request {\n    }\n    response {\n      field m map:enum {\n        option A\n      }\n    }\n  }\n}\n"},
+	{"type-named-like-subpackage", "package foo.v1\n\nenum topic {\n  option upsert\n}\n\x00FILE foo/v1/t.j5s\x00package foo.v1\n\ntopic Pub publish {\n  message M {\n  }\n}\n"},
 	{"unterminated-body", "package foo.v1\n\nobject Foo {\n  field a string\n"},
 	{"stray-close", "package foo.v1\n\nobject Foo {\n}\n}\n"},
 }
@@ -710,12 +712,40 @@ func execTotalNeg(h *vh.H, op string, class string, co *compileOp) string {
 	case "err:outside":
 		h.Fail("c07-position-outside:neg-"+class+":"+classify(compileErr.Error()), op, detail+"\n"+dumpSources(mb))
 	case "err:nopos", "err:virtual":
-		h.Fail("c07-"+strings.TrimPrefix(cls, "err:")+":"+classify(compileErr.Error()), op, "[neg-"+class+"] "+detail+"\n"+dumpSources(mb))
+		h.Fail(noposSignature(mb, co.pkg, cls, compileErr), op, "[neg-"+class+"] ["+classify(compileErr.Error())+"] "+detail+"\n"+dumpSources(mb))
 	}
 	if strings.HasPrefix(cls, "err") {
 		return "err"
 	}
 	return cls
+}
+
+// loadsAlone reports whether the load half of CompilePackage (PackageSet.LoadLocalPackage: parse, summaries,
+// dependencies, j5convert) succeeds on a fresh PackageSet. When it does, an error of CompilePackage was produced
+// by the link half (protobuild/linker.go resolveAll: protocompile's linker over the GENERATED descriptors, the
+// import walk of searchLinker): the call site that returns errors without mapping them back to a .j5s position.
+func loadsAlone(mb *j5sreal.MemBundle, pkg string) (ok bool) {
+	defer func() {
+		if recover() != nil {
+			ok = false
+		}
+	}()
+	ps, err := j5sreal.NewPackageSet(mb)
+	if err != nil {
+		return false
+	}
+	_, _, err = ps.LoadLocalPackage(context.Background(), pkg)
+	return err == nil
+}
+
+// noposSignature: unpositioned (or generated-file positioned) errors of the link half share ONE root cause and
+// one call site, whatever protocompile's message says; errors of the load half (j5parse, sourcewalk, j5convert,
+// package loading) keep a narrow signature each.
+func noposSignature(mb *j5sreal.MemBundle, pkg, cls string, err error) string {
+	if loadsAlone(mb, pkg) {
+		return "c07-nopos:link-stage"
+	}
+	return "c07-" + strings.TrimPrefix(cls, "err:") + ":" + classify(err.Error())
 }
 
 func firstLine(s string) string {
@@ -858,7 +888,9 @@ func execTotalSrc(h *vh.H, op string, args []*j5sgen.Node) string {
 		h.Fail("c07-position-outside:"+kindClass(kind)+":"+classify(compileErr.Error()), op, detail+src)
 	case "err:nopos", "err:virtual":
 		// identified by the error class alone: the same unpositioned error is reached from many inputs
-		h.Fail("c07-"+strings.TrimPrefix(cls, "err:")+":"+classify(compileErr.Error()), op, "["+kind+"] "+detail+src)
+		sig := noposSignature(mb, pkg, cls, compileErr)
+		h.Count("total.nopos." + sig + "." + classify(compileErr.Error()))
+		h.Fail(sig, op, "["+kind+"] ["+classify(compileErr.Error())+"] "+detail+src)
 	}
 	// lint entry points on the same input
 	lc, ld := lintFile(mb, path)
